@@ -885,7 +885,7 @@ pub fn c14(seed: u64, tier: Tier) -> Vec<Episode> {
     let vd = *g.rng.pick(&[ValDist::Tiny, ValDist::Boundary]);
     let cfg = HistCfg { maps: maps.clone(), alphabet: g.rng.range(2, 80) as usize, kd: KeyDist::Short, vd, steps: g.rng.range(5, 80) as usize, w, one_bucket: false, reopen_params: false, xproc_every: 0, bulk_max };
     let st = history(&mut g, &cfg);
-    let checks = Checks { model: true, audit_every: 20, ..Default::default() };
+    let checks = Checks { model: true, model_bulk: true, audit_every: 20, ..Default::default() };
     let mut ep = base_episode("C14", "bulk", seed, maps, st, checks);
     ep.buggify = buggify(&mut g, seed);
     vec![ep]
